@@ -80,8 +80,10 @@ def polynomial_from_attributes(
         dtype = coefficients[0].dtype if dtype is None else dtype
         shape = coefficients[0].shape
     else:
+        # no coefficients: the zero polynomial
         dtype = dtype if dtype else int
         shape = ()
+        coefficients = [numpy.zeros(shape, dtype=dtype)] * max(len(exponents), 1)
 
     poly = numpoly.ndpoly(
         exponents=exponents,
